@@ -56,12 +56,9 @@ def cmp_c15(case, go, m, s):
     op = case.split(" ")[0]
     corr = go == m
     if op == "WT":
-        g = _parts(go, 4)
-        if g is None:
-            return corr, False
-        # the count returned is the number of bytes the writer accepted, whatever else holds
-        ok = go == s and g[0].isdigit() and int(g[0]) == _hexlen(g[2])
-        return corr, ok
+        # the specification judges what the real code did whatever the number and boundaries of its Write calls
+        # (Driver/MessageD.lean wtVerdict): a rewrite that batches its writes breaks the correspondence, not the property
+        return corr, s == "ok"
     if op == "RT":
         return corr, s == "n/a" or go == s
     if op == "UT":
@@ -73,7 +70,7 @@ def hist_c15(case, go):
     a = case.split(" ")
     lab = ["op:" + a[0]]
     if a[0] == "WT":
-        g = _parts(go, 4) or ["0", "?", "-", "0"]
+        g = _parts(go, 5) or ["0", "?", "-", "0", "0"]
         lab.append("write:" + g[1])
         if a[2] != "-":
             lab.append("fault-at:" + ("first" if a[2] == "0" else "later"))
@@ -138,6 +135,9 @@ def register(PROPS):
         # the ID / type of an encoded message may come from any construction route (Scan, UnmarshalText, JSON, header):
         # a route that lets a line break through — or keeps a reference to a buffer its caller reuses — puts foreign
         # lines on the wire; the routes are run here as well (their own property is C14)
+        # what reaches a writer that is slow, fails, or writes other messages meanwhile (WT) is the wire form as well
+        if case.startswith(("WT ", "RT ", "UT ")):
+            return cmp_c15(case, go, m, s)
         if not case.startswith("ENC "):
             return cmp_c14(case, go, m, s)
         return cmp_enc(case, go, m, s)
@@ -146,7 +146,8 @@ def register(PROPS):
         "generated_layer": True,
         "gens": [{"id": "C02", "quick": 30000, "thorough": 1200000, "thorough_seeds": 12},
                  {"id": "C19", "quick": 6000, "thorough": 200000, "thorough_seeds": 8},
-                 {"id": "C14", "quick": 6000, "thorough": 200000, "thorough_seeds": 8}],
+                 {"id": "C14", "quick": 6000, "thorough": 200000, "thorough_seeds": 8},
+                 {"id": "C15", "quick": 6000, "thorough": 200000, "thorough_seeds": 8}],
         "compare": cmp_c02,
         "shrink_candidates": shrink_msgs,
         "nontrivial": lambda c, g: not g.startswith("- |"),
